@@ -1,6 +1,7 @@
 import TrucModel.Proofs.Memory
 import TrucModel.Generated.Primitives
 import TrucModel.Proofs.Corollaries
+import TrucModel.Proofs.Reachable
 /-
   C07 — Generated code only touches storage it owns, aligned, with the right type.
 -/
@@ -29,6 +30,35 @@ theorem C07_in_bounds (dr : String → Bool) (b : Buf) (d : D) (h : d.offset + d
   cases b.find d with
   | some e => simp
   | none => by_cases hd : dr d.ty = true <;> simp [hd]
+
+/-- **no machine error, ever.** The machine's errors are exactly the property's clauses (`oob`: outside
+    the capacity; `readMoved`: a droppable value read where none of that type is currently stored /
+    already moved out; `storeOverOwned`: a store landing on a value the record still owns;
+    `doubleFree`: drop glue finding a moved value).  On every record reached by any sequence of
+    constructor / conversion / write, of a well-formed module with any capacity `cap` (= `MAX_SIZE` or
+    larger): dropping, unpacking, every read accessor and every conversion form run to completion. -/
+theorem C07_no_machine_error (dr : String → Bool) (cap : Nat) (specs : List Spec) (hm : ModuleWF dr cap specs)
+    (k : Nat) (b : Buf) (h : Reach dr cap specs k b) :
+    ∃ s, specs[k]? = some s ∧
+      (∃ st, call dr cap (dropFn s) { self_ := some b } = .ok st) ∧
+      ("record" ∉ s.data.map (·.name) → ∃ st, call dr cap (unpackFn s) { self_ := some b, selfGlue := some s.data } = .ok st) ∧
+      (∀ d ∈ s.data, ∀ sig, ∃ st, call dr cap ⟨sig, [.get d]⟩ { self_ := some b } = .ok st) ∧
+      (∀ s', specs[k + 1]? = some s' → ∀ uninit andOut vals, vals.length = (plusWritten s' uninit).length →
+        (∀ p ∈ (plusWritten s' uninit).zip vals, p.2.ty = p.1.ty) →
+        ∃ st, call dr cap (convFn s' uninit andOut)
+          { from_ := some b, fromGlue := some s.data, args := [("plus", fieldsOf (plusWritten s' uninit) vals)] } = .ok st) := by
+  obtain ⟨s, hs, hc, hinv⟩ := reach_inv dr cap specs hm k b h
+  have hwf := hm.data s (List.mem_of_getElem? hs)
+  refine ⟨s, hs, ?_, ?_, ?_, ?_⟩
+  · obtain ⟨st, h1, _⟩ := drop_inv_ok dr cap s b hc hwf hinv; exact ⟨st, h1⟩
+  · intro hrec; obtain ⟨st, h1, _⟩ := unpack_inv_ok dr cap s b hc hwf hrec hinv; exact ⟨st, h1⟩
+  · intro d hd sig; exact ⟨_, get_inv_ok dr cap sig s b hc hwf hinv d hd⟩
+  · intro s' hs' uninit andOut vals hl hty
+    obtain ⟨hcw, hrec, hz⟩ := hm.conv k s s' hs hs'
+    have hpod : ∀ d ∈ s'.plus, d.uninit = true → dr d.ty = false :=
+      fun d hd => hm.pod s' (List.mem_of_getElem? hs') d (hcw.plusSub.subset hd)
+    obtain ⟨b2, st, hcall, _⟩ := conv_ok dr cap s s' uninit andOut hcw b hc hinv hrec hpod hz vals hl hty
+    exact ⟨st, hcall⟩
 
 example : (4 : Nat) ∣ 64 + 12 := C07_aligned_access 64 12 4 16 (by decide) (by decide) (by decide)
 
